@@ -4,27 +4,47 @@ use serde_json::Value;
 
 pub mod c01;
 pub mod c02;
+pub mod c03;
+pub mod c04;
+pub mod c05;
 pub mod c06;
 pub mod c07;
 pub mod c08;
 pub mod c09;
+pub mod c10;
+pub mod c11;
+pub mod c12;
+pub mod c12_cue;
+pub mod c12_meta;
 pub mod c13;
 pub mod c14;
 pub mod c15;
+pub mod c16;
+pub mod c17;
 pub mod c19;
+pub mod c20;
 
 pub fn run(ctx: &Ctx, acc: &mut Acc) -> bool {
     match ctx.prop.as_str() {
         "C01" => c01::run(ctx, acc),
         "C02" => c02::run(ctx, acc),
+        "C03" => c03::run(ctx, acc),
+        "C04" => c04::run(ctx, acc),
+        "C05" => c05::run(ctx, acc),
         "C06" => c06::run(ctx, acc),
         "C07" => c07::run(ctx, acc),
         "C08" => c08::run(ctx, acc),
         "C09" => c09::run(ctx, acc),
+        "C10" => c10::run(ctx, acc),
+        "C11" => c11::run(ctx, acc),
+        "C12" => c12::run(ctx, acc),
         "C13" => c13::run(ctx, acc),
         "C14" => c14::run(ctx, acc),
         "C15" => c15::run(ctx, acc),
+        "C16" => c16::run(ctx, acc),
+        "C17" => c17::run(ctx, acc),
         "C19" => c19::run(ctx, acc),
+        "C20" => c20::run(ctx, acc),
         _ => return false,
     }
     true
@@ -33,7 +53,7 @@ pub fn run(ctx: &Ctx, acc: &mut Acc) -> bool {
 /// Build profiles a property is explored under.
 pub fn profiles(id: &str) -> Vec<String> {
     let both = ["C03", "C04", "C12", "C15"];
-    let known = ["C01", "C02", "C06", "C07", "C08", "C09", "C13", "C14", "C19"];
+    let known = ["C01", "C02", "C05", "C06", "C07", "C08", "C09", "C10", "C11", "C13", "C14", "C16", "C17", "C19", "C20"];
     if both.contains(&id) {
         vec!["opt".into(), "chk".into()]
     } else if known.contains(&id) {
@@ -52,14 +72,23 @@ pub fn replay(id: &str, v: &Value) -> Option<(bool, String)> {
     match id {
         "C01" => c01::replay(v),
         "C02" => c02::replay(v),
+        "C03" => c03::replay(v),
+        "C04" => c04::replay(v),
+        "C05" => c05::replay(v),
         "C06" => c06::replay(v),
         "C07" => c07::replay(v),
         "C08" => c08::replay(v),
         "C09" => c09::replay(v),
+        "C10" => c10::replay(v),
+        "C11" => c11::replay(v),
+        "C12" => c12::replay(v),
         "C13" => c13::replay(v),
         "C14" => c14::replay(v),
         "C15" => c15::replay(v),
+        "C16" => c16::replay(v),
+        "C17" => c17::replay(v),
         "C19" => c19::replay(v),
+        "C20" => c20::replay(v),
         _ => None,
     }
 }
@@ -68,14 +97,23 @@ pub fn rule(id: &str) -> &'static str {
     match id {
         "C01" => c01::RULE,
         "C02" => c02::RULE,
+        "C03" => c03::RULE,
+        "C04" => c04::RULE,
+        "C05" => c05::RULE,
         "C06" => c06::RULE,
         "C07" => c07::RULE,
         "C08" => c08::RULE,
         "C09" => c09::RULE,
+        "C10" => c10::RULE,
+        "C11" => c11::RULE,
+        "C12" => c12::RULE,
         "C13" => c13::RULE,
         "C14" => c14::RULE,
         "C15" => c15::RULE,
+        "C16" => c16::RULE,
+        "C17" => c17::RULE,
         "C19" => c19::RULE,
+        "C20" => c20::RULE,
         _ => "",
     }
 }
@@ -83,14 +121,23 @@ pub fn bounds(id: &str, quick: bool) -> Value {
     match id {
         "C01" => c01::bounds(quick),
         "C02" => c02::bounds(quick),
+        "C03" => c03::bounds(quick),
+        "C04" => c04::bounds(quick),
+        "C05" => c05::bounds(quick),
         "C06" => c06::bounds(quick),
         "C07" => c07::bounds(quick),
         "C08" => c08::bounds(quick),
         "C09" => c09::bounds(quick),
+        "C10" => c10::bounds(quick),
+        "C11" => c11::bounds(quick),
+        "C12" => c12::bounds(quick),
         "C13" => c13::bounds(quick),
         "C14" => c14::bounds(quick),
         "C15" => c15::bounds(quick),
+        "C16" => c16::bounds(quick),
+        "C17" => c17::bounds(quick),
         "C19" => c19::bounds(quick),
+        "C20" => c20::bounds(quick),
         _ => Value::Null,
     }
 }
@@ -102,14 +149,23 @@ pub fn assumptions(id: &str) -> Vec<&'static str> {
     v.extend(match id {
         "C01" => c01::ASSUMPTIONS,
         "C02" => c02::ASSUMPTIONS,
+        "C03" => c03::ASSUMPTIONS,
+        "C04" => c04::ASSUMPTIONS,
+        "C05" => c05::ASSUMPTIONS,
         "C06" => c06::ASSUMPTIONS,
         "C07" => c07::ASSUMPTIONS,
         "C08" => c08::ASSUMPTIONS,
         "C09" => c09::ASSUMPTIONS,
+        "C10" => c10::ASSUMPTIONS,
+        "C11" => c11::ASSUMPTIONS,
+        "C12" => c12::ASSUMPTIONS,
         "C13" => c13::ASSUMPTIONS,
         "C14" => c14::ASSUMPTIONS,
         "C15" => c15::ASSUMPTIONS,
+        "C16" => c16::ASSUMPTIONS,
+        "C17" => c17::ASSUMPTIONS,
         "C19" => c19::ASSUMPTIONS,
+        "C20" => c20::ASSUMPTIONS,
         _ => &[],
     });
     v
